@@ -28,7 +28,7 @@ ASSUMPTIONS = [
     "find_all_descendants delivers its result by appending the matches, in document order, to the list it is given (the list is an accumulator: what it held before stays)",
     "replace_child is driven with delete_old=False in the exhaustive part and with both settings in the random histories (the default deletes the old subtree from the registry, which is C14's subject; the ordered-tree invariants must hold regardless)",
 ]
-REQUIRED = ["descendants_kept_after_their_document_was_closed", "sibling_pair_steps", "accumulator_queries", "vocabulary_probes", "wide_parent_steps", "deep_chain_nodes", "steps", "failing_edits", "edge_shifts_positional", "edge_shifts_samename", "query_evaluations", "states_expanded"]
+REQUIRED = ["nodes_handed_to_the_standard_library", "descendants_kept_after_their_document_was_closed", "sibling_pair_steps", "accumulator_queries", "vocabulary_probes", "wide_parent_steps", "deep_chain_nodes", "steps", "failing_edits", "edge_shifts_positional", "edge_shifts_samename", "query_evaluations", "states_expanded"]
 EXHAUSTIVE = {"quick": False, "thorough": False}
 
 INDEXES = (None, -1, 0, 1, 2, 9)
@@ -89,6 +89,8 @@ def apply_model(f, op):
     if k == "rename":
         f.names[op[1]] = op[2]
         return None
+    if k == "stdlib":
+        return None       # (looking at a node with the standard library is no edit)
     raise AssertionError(op)
 
 
@@ -114,6 +116,27 @@ def apply_real(nodes, op):
         return nodes[op[1]].remove_children()
     if k == "rename":
         nodes[op[1]].name = op[2]
+        return None
+    if k == "stdlib":
+        # a subtree handed to the standard library (a cache that pickles, a scratch copy made with copy.deepcopy, a dict keyed by nodes):
+        # whether that succeeds is nobody's business here - the tree it was taken from stays what it was
+        import copy
+        import pickle
+        x = nodes[op[1]]
+        try:
+            if op[2] == "pickle":
+                pickle.loads(pickle.dumps(x))
+            elif op[2] == "deepcopy":
+                copy.deepcopy(x)
+            elif op[2] == "copy":
+                copy.copy(x)
+            elif op[2] == "hash":
+                {x: 1, nodes[0]: 2}
+                _ = x == nodes[0], x != nodes[0], x in [nodes[0]], str(x), repr(x)
+            elif op[2] == "vars":
+                dict(vars(x))
+        except Exception:
+            pass
         return None
     raise AssertionError(op)
 
@@ -491,8 +514,11 @@ def random_history(ctx, n_nodes, n_ops, hist_no):
             c = rng.choice(f.kids[p]) if f.kids[p] and rng.random() < 0.9 else rng.randrange(n_nodes)
             if c != p:
                 op = ("shift", p, c, rng.random() < 0.5, rng.random() < 0.5)
-        elif k < 0.985:
+        elif k < 0.98:
             op = ("clear", p)
+        elif k < 0.99:
+            op = ("stdlib", p, rng.choice(["pickle", "deepcopy", "copy", "hash", "vars"]))
+            ctx.count("nodes_handed_to_the_standard_library")
         else:
             op = ("rename", p, rng.choice(pool))       # an element re-typed in place through the name setter
         if op is None:
